@@ -97,17 +97,18 @@ def run(tier, seed):
         if len(cmds) > budget:
             break
         G = by_sid[scn["sid"]]["nodes"]
-        for b in [scn["enc"]] + scn["lays"][:2] + scn["mal"][:2]:
-            bb = b + [9]
-            if len(bb) > 40:
+        # (every byte string followed by a stray byte - the datum must not consume it - and the valid encoding also as the very end of the input)
+        for b, tail in [(scn["enc"], [9]), (scn["enc"], [])] + [(x, [9]) for x in scn["lays"][:2] + scn["mal"][:2]]:
+            bb = b + tail
+            if len(bb) > 40 or not bb:
                 continue
             base = {"op": "de", "schema": {"nodes": G}, "bytes": bb}
-            cmds.append(dict(base, id=len(cmds), reader={"kind": "slice"}, _grp=(scn["sid"], tuple(b))))
+            cmds.append(dict(base, id=len(cmds), reader={"kind": "slice"}, _grp=(scn["sid"], tuple(bb), len(tail))))
             parts = partitions_for(len(bb), rng, tier)
             if len(parts) > 24:
                 parts = rng.sample(parts, 24)
             for p in parts:
-                cmds.append(dict(base, id=len(cmds), reader={"kind": "chunks", "sched": p}, _grp=(scn["sid"], tuple(b))))
+                cmds.append(dict(base, id=len(cmds), reader={"kind": "chunks", "sched": p}, _grp=(scn["sid"], tuple(bb), len(tail))))
     send = [{k: v for k, v in c.items() if k != "_grp"} for c in cmds]
     obs = common.run_harness(send)
     groups = {}
@@ -153,19 +154,23 @@ def run(tier, seed):
 def single_object_cases(rng, tier, rep):
     G = container.item_schema()
     vals = [container.item_value(1, ""), container.item_value(-70000, "héllo", 5)]
-    cmds = [{"op": "so_ser", "id": i, "schema": {"nodes": G}, "pres": container.item_pres(G, v)} for i, v in enumerate(vals)]
+    # (and datums of zero bytes: the message is the 10-byte header alone)
+    GZ = [{"k": "null", "lt": "none"}]
+    GE = [{"k": "record", "lt": "none", "name": container.T("Empty"), "fields": []}]
+    items = [(G, container.item_pres(G, v)) for v in vals] + [(GZ, {"p": "unit"}), (GE, {"p": "struct", "name": container.T("Empty"), "fs": []})]
+    cmds = [{"op": "so_ser", "id": i, "schema": {"nodes": g}, "pres": pr} for i, (g, pr) in enumerate(items)]
     sers = common.run_harness(cmds)
     de = []
-    for v, s in zip(vals, sers):
+    for (g, _), s in zip(items, sers):
         if s.get("res") != "ok":
             raise common.ToolError("single-object serialization failed: " + json.dumps(s)[:300])
         b = s["bytes"]
         variants = [b, b + [1, 2], b[:5], b[:10], b[:11], [b[0] ^ 1] + b[1:], b[:4] + [b[4] ^ 255] + b[5:]]
         for vb in variants:
             grp = len(de)
-            de.append(({"op": "so_de", "schema": {"nodes": G}, "bytes": vb, "reader": {"kind": "slice"}}, grp, True))
-            for p in partitions_for(len(vb), rng, tier)[:40] if len(vb) > 10 else list(compositions(len(vb))):
-                de.append(({"op": "so_de", "schema": {"nodes": G}, "bytes": vb, "reader": {"kind": "chunks", "sched": p}}, grp, False))
+            de.append(({"op": "so_de", "schema": {"nodes": g}, "bytes": vb, "reader": {"kind": "slice"}}, grp, True))
+            for p in partitions_for(len(vb), rng, tier)[:40] if len(vb) > 10 else list(compositions(len(vb)))[:64]:
+                de.append(({"op": "so_de", "schema": {"nodes": g}, "bytes": vb, "reader": {"kind": "chunks", "sched": p}}, grp, False))
     obs = common.run_harness([dict(c, id=i) for i, (c, _, _) in enumerate(de)])
     ref = {}
     for (c, grp, is_ref), o in zip(de, obs):
